@@ -483,6 +483,14 @@ func GS(v interface{}) string  { s, _ := v.(string); return s }
 func GBool(v interface{}) bool { b, _ := v.(bool); return b }
 
 // GIs reads an int array field.
+// GI0 is GI with 0 for an absent field.
+func GI0(v interface{}) int {
+	if v == nil {
+		return 0
+	}
+	return GI(v)
+}
+
 func GIs(v interface{}) []int {
 	switch t := v.(type) {
 	case []int:
